@@ -230,20 +230,23 @@ structure LineHit (R : Type) where
   cur : Segment R
   next : Segment R
 
-/-- the guards of `SubductingPlate::properties` / `Fault::properties`: `some hit` when the feature writes -/
-def LineFeature.covers (f : LineFeature R) (ctx : Ctx R) (q : Query R) : Except Err (Option (LineHit R)) := do
+/-- the culling pre-test in front of the geometry (subducting_plate.cc:519, fault.cc:493) -/
+def LineFeature.preTest (f : LineFeature R) (ctx : Ctx R) (q : Query R) : Except Err Bool := do
+  let sph := ctx.coord.spherical
+  let depth := q.depth
+  let box ← f.bbox ctx.coord
+  let sp := surfacePoint sph q.nat
+  if f.cull then
+    return decide (depth ≤ f.maxDepth) && decide (depth ≥ f.minDepth) && decide (depth - f.minDepth ≤ f.maxTotalLength + f.maxThickness) && box.inside sph sp
+  else
+    -- hook `inflate_culling_bounds`: `maximum_total_*_length = +∞`, default (infinite, Cartesian-typed) bounding box
+    return decide (depth ≤ f.maxDepth) && decide (depth ≥ f.minDepth)
+
+/-- everything after the pre-test: geometry and membership (does not look at `cull`) -/
+def LineFeature.coversBody (f : LineFeature R) (ctx : Ctx R) (q : Query R) : Except Err (Option (LineHit R)) := do
   let sph := ctx.coord.spherical
   let depth := q.depth
   let startingRadius := depthCoordinate sph q.nat + depth - f.minDepth
-  let box ← f.bbox ctx.coord
-  let sp := surfacePoint sph q.nat
-  let pre :=
-    if f.cull then
-      decide (depth ≤ f.maxDepth) && decide (depth ≥ f.minDepth) && decide (depth ≤ f.maxTotalLength + f.maxThickness) && box.inside sph sp
-    else
-      -- hook `inflate_culling_bounds`: `maximum_total_*_length = +∞`, default (infinite, Cartesian-typed) bounding box
-      decide (depth ≤ f.maxDepth) && decide (depth ≥ f.minDepth)
-  if !pre then return none
   let pd ← distancePointFromCurvedPlanes ctx.coord q.pt q.nat f.reference f.coords f.lengths f.anglesRad startingRadius f.isFault f.bezier
   if !(fabs pd.distanceFromPlane < Scalar.inf ∨ pd.distanceAlongPlane < Scalar.inf) then return none
   let secCur ← idx f.sections pd.sectionIdx
@@ -269,6 +272,11 @@ def LineFeature.covers (f : LineFeature R) (ctx : Ctx R) (q : Query R) : Except 
     if f.isFault then decide (fabs d ≤ thLocal * (0.5 : R)) && decide (a > 0) && decide (a ≤ maxLen)
     else decide (d ≥ ttLocal) && decide (d ≤ thLocal) && decide (a ≥ 0) && decide (a ≤ maxLen)
   if inside then return some ⟨pd, cur, next⟩ else return none
+
+/-- the guards of `SubductingPlate::properties` / `Fault::properties`: `some hit` when the feature writes -/
+def LineFeature.covers (f : LineFeature R) (ctx : Ctx R) (q : Query R) : Except Err (Option (LineHit R)) := do
+  if !(← f.preTest ctx q) then return none
+  f.coversBody ctx q
 
 /-- the per-property `switch` inside a slab / fault for the request whose block starts at `e` -/
 def linePaintAt (f : LineFeature R) (ctx : Ctx R) (q : Query R) (h : LineHit R) (p : Req) (e : Nat) (out : List R) : Except Err (List R) :=
